@@ -14,7 +14,7 @@ import (
 	"verif/harness/ev"
 )
 
-const rule = "cases = (destination kinds {plain io.Writer, LevelWriter, FilteredLevelWriter(level), SyncWriter around either, LevelWriterAdapter} x events with levels x per (destination,event) outcome {ok, error_i, short write}); exhaustive for <=3 destinations x <=2 events (<=3 in thorough) over 3 kinds, 3 levels, 3 outcomes; rapid for up to 8 destinations, 30 events, nested MultiLevelWriter; also a single failing writer without MultiLevelWriter, and an ErrorHandler that itself logs through a failing audit logger (each failed event, the audit event included, gets its own report). oracle = fan-out model + ErrorHandler log. non-trivial = at least one failing destination that is not the last one; distinct by construction / FNV-64"
+const rule = "cases = (destination kinds {plain io.Writer, LevelWriter, FilteredLevelWriter(level), SyncWriter around either, LevelWriterAdapter} x events with levels x per (destination,event) outcome {ok, error_i, short write}); exhaustive for <=3 destinations x <=2 events (<=3 in thorough) over 3 kinds, 3 levels, 3 outcomes; rapid for up to 8 destinations, 30 events, nested MultiLevelWriter; also a single failing writer without MultiLevelWriter, and an ErrorHandler that itself logs through a failing audit logger (each failed event, the audit event included, gets its own report). level 5 enters through Panic() (written and reported before it panics). oracle = fan-out model + ErrorHandler log. non-trivial = at least one failing destination that is not the last one; distinct by construction / FNV-64"
 
 var rec = ev.New("C14", rule)
 
@@ -170,13 +170,23 @@ func run(c *Case) (msg string, nontrivial bool) {
 			if c.Direct {
 				line := fmt.Sprintf("direct line %d\n", ei)
 				_, directErr = zerolog.MultiLevelWriter(ws...).Write([]byte(line))
+			} else if lv == 5 {
+				// level 5 goes through the Panic() entry point: the event is written (and a failure
+				// reported) before the call panics — which it must, so "returned" means "panicked" here
+				defer func() {
+					if recover() != nil {
+						returned = true
+					}
+				}()
+				l.Panic().Int("event", ei).Msg("m")
+				return
 			} else {
 				l.WithLevel(zerolog.Level(lv)).Int("event", ei).Msg("m")
 			}
 			returned = true
 		}()
 		if !returned {
-			return fmt.Sprintf("event %d: the logging call did not return normally", ei), false
+			return fmt.Sprintf("event %d (level %d): the logging call did not return normally (Panic(): did not panic)", ei, lv), false
 		}
 		line := fmt.Sprintf("{\"level\":%q,\"event\":%d,\"message\":\"m\"}\n", zerolog.Level(lv).String(), ei)
 		if lv == 6 {
@@ -368,7 +378,7 @@ func TestRapid(t *testing.T) {
 		c.Dests = genDests(rt, rapid.IntRange(1, 8).Draw(rt, "ndest"), 2, "d")
 		ne := rapid.IntRange(1, 30).Draw(rt, "nev")
 		for i := 0; i < ne; i++ {
-			c.Levels = append(c.Levels, rapid.SampledFrom([]int{-1, 0, 1, 2, 3, 6, 9, 127}).Draw(rt, "lvl"))
+			c.Levels = append(c.Levels, rapid.SampledFrom([]int{-1, 0, 1, 2, 3, 6, 9, 127, 5, 5}).Draw(rt, "lvl"))
 		}
 		nl := countLeaves(c.Dests)
 		for d := 0; d < nl; d++ {
